@@ -2881,7 +2881,9 @@ def constants_from_enum(cls=None, module=None):
 
 @register_finalize_hook
 def validate_macros_hook(config):
-  for ref in iterate_references(config, to=get_configurable(macro)):
+  # Look `macro` up without the active scope: `get_configurable(macro)` would
+  # return a scoped wrapper, which no reference matches.
+  for ref in iterate_references(config, to=_inverse_lookup(macro).wrapper):
     validate_reference(ref, require_evaluation=True)
 
 
